@@ -236,6 +236,22 @@ type daExpect struct {
 	client    string
 	scopes    []string
 	issuerVia string // "static", "static-port", "static-path", "host"
+	// others: user codes of the other flows the harness knows of (same provider, or another provider alive in the
+	// process) -> who they belong to. Only used to say in a finding whose code a URI discloses; the verdict does not depend on it.
+	others map[string]string
+}
+
+// sameValues: the same parameters with the same values in the same order per parameter.
+func sameValues(a, b url.Values) bool {
+	if len(a) != len(b) {
+		return false
+	}
+	for k, v := range a {
+		if !slices.Equal(v, b[k]) {
+			return false
+		}
+	}
+	return true
 }
 
 type daResult struct {
@@ -338,14 +354,23 @@ func judgeDeviceResponse(w *opdrv.World, resp *opdrv.Resp, e daExpect, t0, t1 ti
 		// open point: the form path below an issuer that has a path of its own
 		wantPaths = append(wantPaths, strings.TrimRight(iss.Path, "/")+e.cfg.UserFormPath)
 	}
-	var wantQuery url.Values
+	formQuery := url.Values{} // the parameters the configured form address has of its own (none with a form path)
 	if e.cfg.UserFormURL != "" {
 		fu, err := url.Parse(e.cfg.UserFormURL)
 		if err != nil {
 			return fail("harness", "UserFormURL %q does not parse", e.cfg.UserFormURL)
 		}
 		wantPaths = []string{fu.Path}
-		wantQuery = fu.Query()
+		formQuery = fu.Query()
+	}
+	whose := func(code string) string {
+		switch {
+		case code == res.UserCode:
+			return "this flow's own user code"
+		case e.others[code] != "":
+			return "the user code of " + e.others[code]
+		}
+		return "neither this flow's user code nor that of an earlier flow of the providers of this case (a flow of another provider alive in the process?)"
 	}
 	vu, err := url.Parse(res.URI)
 	if err != nil {
@@ -360,8 +385,19 @@ func judgeDeviceResponse(w *opdrv.World, resp *opdrv.Resp, e daExpect, t0, t1 ti
 	if len(wantPaths) > 1 {
 		greys = append(greys, "issuer-with-path:form-path-"+map[bool]string{true: "replaces", false: "appended"}[vu.Path == e.cfg.UserFormPath])
 	}
-	if wantQuery == nil && vu.RawQuery != "" {
-		return fail("verification-uri", "verification_uri %q carries a query", res.URI)
+	// "without the code": verification_uri is the configured form address and nothing besides - in particular it is
+	// the same for every flow of the provider and carries no user code (of this or of any other flow)
+	vq, err := url.ParseQuery(vu.RawQuery)
+	if err != nil {
+		return fail("verification-uri", "query of verification_uri %q does not decode: %v", res.URI, err)
+	}
+	if _, configured := formQuery["user_code"]; !configured {
+		if got, has := vq["user_code"]; has {
+			return fail("verification-uri-carries-code", "verification_uri %q (the URI without the code) carries user_code %q: %s", res.URI, got, whose(strings.Join(got, ",")))
+		}
+	}
+	if !sameValues(vq, formQuery) {
+		return fail("verification-uri", "verification_uri %q carries the query %q, the configured form address has %q", res.URI, vu.RawQuery, formQuery.Encode())
 	}
 	if res.URIComplete == "" {
 		return fail("verification-uri-complete", "no verification_uri_complete although the statement promises the URI with and without the code")
@@ -380,8 +416,21 @@ func judgeDeviceResponse(w *opdrv.World, resp *opdrv.Resp, e daExpect, t0, t1 ti
 	if got := q["user_code"]; len(got) != 1 || got[0] != res.UserCode {
 		return fail("verification-uri-complete", "verification_uri_complete %q decodes to user_code %q, the response says %q", res.URIComplete, got, res.UserCode)
 	}
-	if wantQuery == nil && len(q) != 1 {
-		return fail("verification-uri-complete", "verification_uri_complete %q carries parameters besides user_code", res.URIComplete)
+	rest := url.Values{}
+	for k, v := range q {
+		if k != "user_code" {
+			rest[k] = v
+		}
+	}
+	switch {
+	case len(rest) == 0 && len(formQuery) == 0:
+	case len(rest) == 0:
+		// open point: a form address with parameters of its own - are they kept beside the code?
+		greys = append(greys, "form-url-with-query:dropped-from-complete")
+	case sameValues(rest, formQuery):
+		greys = append(greys, "form-url-with-query:kept-in-complete")
+	default:
+		return fail("verification-uri-complete", "verification_uri_complete %q carries parameters %q besides user_code, the configured form address has %q", res.URIComplete, rest.Encode(), formQuery.Encode())
 	}
 	// lifetime and poll interval
 	life := e.cfg.Lifetime.Seconds()
